@@ -7,7 +7,7 @@ from symx.core import SymReal
 NONFINITE = {'nan': float('nan'), '-inf': float('-inf'), '+inf': float('inf')}
 
 
-def make_target(dim, tag='T', with_grad=True, nonfinite=None, nonfinite_after=None):
+def make_target(dim, tag='T', with_grad=True, nonfinite=None, nonfinite_after=None, flat=False):
     """A cuqi Distribution whose log-density is the uninterpreted function  <tag>(x_1..x_d)
     and whose gradient components are  <tag>_g<i>(x_1..x_d).
 
@@ -25,11 +25,15 @@ def make_target(dim, tag='T', with_grad=True, nonfinite=None, nonfinite_after=No
             self.calls += 1
             if nonfinite is not None and self.calls > (nonfinite_after or 0):
                 return NONFINITE[nonfinite]
+            if flat:
+                return 0.0
             args = list(np.asarray(x, dtype=object).ravel())
             return core.ctx().uf_call(tag, args)
 
         def _gradient(self, x, *a, **k):
             self.grad_calls += 1
+            if flat:
+                return np.zeros(dim)
             if not with_grad:
                 raise NotImplementedError('no gradient')
             args = list(np.asarray(x, dtype=object).ravel())
